@@ -377,6 +377,86 @@ theorem stripTagsGo_noTag : ∀ (f : Nat) (s : Str), s.length < f → NoTag (str
 theorem striptags_noTag (s : Str) : NoTag (striptags s) :=
   stripTagsGo_noTag _ s (Nat.lt_succ_self _)
 
+
+/-! ### striptags: plain text is kept, a simple tag is removed -/
+
+theorem stripTagsGo_fuel : ∀ (f g : Nat) (s : Str), s.length < f → s.length < g →
+    stripTagsGo f s = stripTagsGo g s := by
+  intro f
+  induction f with
+  | zero => intro g s h; simp at h
+  | succ f ih =>
+    intro g s hf hg
+    cases g with
+    | zero => simp at hg
+    | succ g =>
+      cases s with
+      | nil => rfl
+      | cons c cs =>
+        simp only [List.length_cons] at hf hg
+        unfold stripTagsGo
+        split
+        · split
+          · rename_i rest hr
+            have hw := matchTag_within cs rest hr
+            exact ih g rest (by have := hw.1; omega) (by have := hw.1; omega)
+          · rw [ih g cs (by omega) (by omega)]
+        · rw [ih g cs (by omega) (by omega)]
+
+theorem stripTagsGo_plain_prefix : ∀ (a b : Str) (f : Nat), '<' ∉ a → (a ++ b).length < f →
+    stripTagsGo f (a ++ b) = a ++ stripTagsGo (f - a.length) b := by
+  intro a
+  induction a with
+  | nil => intro b f _ _; simp
+  | cons c cs ih =>
+    intro b f h hf
+    have hc : c ≠ '<' := fun e => h (by simp [e])
+    have hcs : '<' ∉ cs := fun hm => h (by simp [hm])
+    cases f with
+    | zero => simp at hf
+    | succ f =>
+      simp only [List.cons_append, List.length_cons] at hf ⊢
+      simp only [stripTagsGo, hc, ↓reduceIte]
+      rw [ih b f hcs (by omega)]
+      have : f + 1 - (cs.length + 1) = f - cs.length := by omega
+      rw [this]
+
+/-- text before the first `<` is kept as it is -/
+theorem striptags_plain_prefix (a b : Str) (h : '<' ∉ a) : striptags (a ++ b) = a ++ striptags b := by
+  unfold striptags
+  rw [stripTagsGo_plain_prefix a b _ h (Nat.lt_succ_self _)]
+  congr 1
+  apply stripTagsGo_fuel
+  · simp; omega
+  · exact Nat.lt_succ_self _
+
+theorem afterGt_append (t rest : Str) (h : '>' ∉ t) : afterGt (t ++ '>' :: rest) = some rest := by
+  induction t with
+  | nil => simp [afterGt]
+  | cons c cs ih =>
+    have hc : c ≠ '>' := fun e => h (by simp [e])
+    have hcs : '>' ∉ cs := fun hm => h (by simp [hm])
+    simp [afterGt, hc, ih hcs]
+
+/-- a tag `<t>` whose inside holds no `>` and does not begin with `!` is removed -/
+theorem striptags_simple_tag (t rest : Str) (h1 : '>' ∉ t) (h2 : t.head? ≠ some '!') :
+    striptags ('<' :: t ++ '>' :: rest) = striptags rest := by
+  have hp : ['!', '-', '-'].isPrefixOf (t ++ '>' :: rest) = false := by
+    cases t with
+    | nil => simp [List.isPrefixOf]
+    | cons c cs =>
+      have : c ≠ '!' := fun e => h2 (by simp [e])
+      simp [List.isPrefixOf, this, Ne.symm this]
+  have hm : matchTag (t ++ '>' :: rest) = some rest := by
+    unfold matchTag
+    simp only [hp, Bool.false_eq_true, ↓reduceIte]
+    exact afterGt_append t rest h1
+  unfold striptags
+  simp only [List.cons_append, List.length_cons, stripTagsGo, ↓reduceIte, hm]
+  apply stripTagsGo_fuel
+  · simp; omega
+  · exact Nat.lt_succ_self _
+
 /-! ### stripentities(keepxmlentities=True) on escaped text -/
 
 theorem xml_facts : namedRefK ['a', 'm', 'p'] = .ok amp ∧ namedRefK ['l', 't'] = .ok lt ∧
